@@ -172,9 +172,12 @@ func runCase(sp *spec) (c *caseRun) {
 	wg.Wait()
 	limit := start.Add(sp.maxOff + quiescence)
 	for c.first.Load() < int64(sp.total) {
-		if time.Now().After(limit) {
-			c.timeout = true
-			break
+		if now := time.Now(); now.After(limit) {
+			// on a machine that stalls plain timers the quiescence period is stretched (up to 30 s)
+			if time.Duration(c.ctlWorst.Load()) <= lateBound/4 || now.After(limit.Add(30*time.Second)) {
+				c.timeout = true
+				break
+			}
 		}
 		time.Sleep(300 * time.Microsecond)
 	}
